@@ -212,4 +212,55 @@ rewrite /contributions sum_lgE Lmap_map big_map.
 by rewrite /nll_gauss /= det_mx00 (flog1 flogM) /maha mul_thin_flat ?mul0mx mxE mul0r !addr0 mulr0 add0r.
 Qed.
 
+
+(* ---------------------------------------------------------------- *)
+(* non-vacuity: a concrete one-dimensional period meets every        *)
+(* hypothesis used above (symmetric Q, ok periods, invertible F)     *)
+(* ---------------------------------------------------------------- *)
 End Batch.
+
+Section NonVacuity.
+Variable F : realFieldType.
+Variables (flog : F -> F) (flog2pi : F).
+Notation M := (MC flog flog2pi).
+
+Definition ex_period (y : F) : period M 1 1 :=
+  @mkPeriod M 1 1 1 1%:M 0 (@UP M 1 1 1%:M 1%:M 0) None 1%:M 1%:M 0 1%:M 0 y%:M.
+
+Local Opaque kf_step.
+
+Lemma ex_hypotheses (y1 y2 : F) :
+  let ps := [:: ex_period y1; ex_period y2] in
+  let Q : 'M[F]_1 := 1%:M in
+  [/\ is_sym Q, all_ok ps & all_unit (@kf_run M 1 1 0 Q ps)].
+Proof.
+have s1 : is_sym (1%:M : 'M[F]_1) by rewrite /is_sym tr_scalar_mx.
+have okp y : ok_period (ex_period y) by split.
+split=> //.
+have unit_of (a : 'cV[F]_1) (Q : 'M[F]_1) y (c : F) : 0 < c -> Q = c%:M ->
+    f_F (@kf_step M 1 1 a Q (ex_period y)) \in unitmx
+    /\ exists2 c', 0 < c' & f_Q1 (@kf_step M 1 1 a Q (ex_period y)) = c'%:M.
+  move=> c0 EQ; have sQ : is_sym Q by rewrite EQ /is_sym tr_scalar_mx.
+  have sp := kf_step_spec a sQ (okp y).
+  have E0 : f_Q0 (@kf_step M 1 1 a Q (ex_period y)) = (c + 1)%:M.
+    by rewrite (sp_Q0 sp) /= EQ tr_scalar_mx !mul1mx !mulmx1 -raddfD.
+  have EF : f_F (@kf_step M 1 1 a Q (ex_period y)) = (c + 1 + 1)%:M.
+    by rewrite (sp_F sp) E0 /= tr_scalar_mx !mul1mx !mulmx1 -raddfD.
+  have pos1 : 0 < c + 1 by rewrite addr_gt0 ?ltr01.
+  have pos : 0 < c + 1 + 1 by rewrite addr_gt0 ?ltr01.
+  split; first by rewrite EF unitmxE det_scalar1 unitfE lt0r_neq0.
+  exists ((c + 1) - (c + 1) * (c + 1 + 1)^-1 * (c + 1)).
+    have -> : c + 1 - (c + 1) * (c + 1 + 1)^-1 * (c + 1) = (c + 1) / (c + 1 + 1).
+      by field; rewrite lt0r_neq0.
+    by rewrite divr_gt0.
+  rewrite (sp_Q1 sp) (sp_G sp) (sp_Fi sp) EF E0 /= tr_scalar_mx mul1mx mulmx1.
+  have -> : invmx ((c + 1 + 1)%:M : 'M[F]_1) = ((c + 1 + 1)^-1)%:M.
+    by apply: inv_from_mul; rewrite -scalar_mxM mulfV // lt0r_neq0.
+  by rewrite -!scalar_mxM -raddfB.
+rewrite 2!krun_cons.
+have [u1 [c1 c1pos E1]] := unit_of 0 1%:M y1 1 ltr01 erefl.
+have [u2 _] := unit_of (f_a1 (@kf_step M 1 1 0 1%:M (ex_period y1))) _ y2 c1 c1pos E1.
+by split; [exact: u1 | split; [exact: u2 | ]].
+Qed.
+
+End NonVacuity.
